@@ -40,12 +40,15 @@ Definition slice3 (start stop step : Z) : pslice := mk_slice start stop.      (*
 
 (* SwathDefinition.  2-D coordinates are lists of rows; a 1-D swath of n points is n rows of one element
    with s_ndim = 1.  s_kind: 0 numpy (also list input), 1 xarray over numpy, 2 xarray over dask, in which
-   case the image is made of the two dask names (opaque tokens supplied by dask). *)
+   case the image is made of the two dask names (opaque tokens supplied by dask), 3 xarray with attrs['hash']. *)
 Record swath (T : Type) := mk_swath { s_kind : Z; s_ndim : Z; s_lon : list (list T); s_lat : list (list T);
                                       s_nlon : Z; s_nlat : Z }.
 Arguments mk_swath {T}. Arguments s_kind {T}. Arguments s_ndim {T}. Arguments s_lon {T}. Arguments s_lat {T}.
 Arguments s_nlon {T}. Arguments s_nlat {T}.
 
+(* kinds whose digest is made of two names instead of the coordinate bytes: 2 = xarray over dask (dask names),
+   3 = xarray (over numpy) whose DataArrays carry a precomputed attrs['hash'] (get_array_hashable returns it as is) *)
+Definition named (k : Z) : bool := (k =? 2) || (k =? 3).
 Definition zlen {A} (l : list A) : Z := Z.of_nat (length l).
 Definition np_slice {A} (s : oslice) (l : list A) : list A := take_slice (indices s (zlen l)) l.
 Definition np_slice2 {A} (key : oslice * oslice) (m : list (list A)) : list (list A) :=
@@ -98,7 +101,7 @@ Section HashEq.
   (* ---------- SwathDefinition *)
   (* BaseDefinition.update_hash / get_array_hashable: dask names, or the C-contiguous bytes of lons then lats *)
   Definition swath_image (s : swath T) : list (tok T) :=
-    if s_kind s =? 2 then [TName (s_nlon s); TName (s_nlat s)]
+    if named (s_kind s) then [TName (s_nlon s); TName (s_nlat s)]
     else map TNum (concat (s_lon s)) ++ map TNum (concat (s_lat s)).
 
   Definition rows_shape_eqb (a b : list (list T)) : bool :=
